@@ -212,6 +212,17 @@ def g5_coalition(rng, big=False):
     size = max(1, min(total - 1, k * q + rng.choice([-1, 0, 1, 1, 2, 2, 3])))
     lines = []
     left = size
+    if rng.random() < 0.4 and len(S) >= 2:
+        # the coalition's support is split evenly over its members (exact ties at the bottom of the poll)
+        share = max(1, size // len(S))
+        for c in S:
+            if left <= 0:
+                break
+            m = min(share, left)
+            inner = [c] + rng.sample([x for x in S if x != c], len(S) - 1)
+            tail = rand_ranking(rng, rest, 0, len(rest)) if rest else []
+            lines.append((m, inner + tail))
+            left -= m
     while left > 0:
         m = rng.randint(1, min(left, 5))
         inner = rng.sample(S, len(S))
